@@ -326,6 +326,7 @@ struct Interp {
         }
         if (n == "append" || n == "prepend") {
             int o = other_slot(op.i(0));
+            if (((op.i(0) % 7) + 7) % 7 == 6) { o = cur; ctx.label(n + ":the-same-object-on-both-sides"); interesting = true; }   // x.append(x): a value operation like any other
             Snap before = snap(cur);
             int r = (n == "append") ? c01_append(cur, o) : c01_prepend(cur, o);
             if (o < 0) {
@@ -335,7 +336,7 @@ struct Interp {
                 return;
             }
             VT_CHECK(ctx, r == 1, "mismatch", "return; " << n << " returned FALSE");
-            if (n == "append") mo.text += m[o].text; else mo.text = m[o].text + mo.text;
+            { std::string ot = m[o].text; if (n == "append") mo.text += ot; else mo.text = ot + mo.text; }
             mutations++;
             if (was_empty_unalloc && !m[o].text.empty()) { ctx.label("first-growth-on-empty:" + n); interesting = true; }
             if (m[o].text.empty()) ctx.label(n + ":empty-other");
@@ -717,7 +718,7 @@ rc::Gen<Op> gen_op() {
         int k = (int)*range(0, 99);
         Op o;
         if (k < 6) { o.name = "helper"; o.ints = {*range(0, 2), *range(0, 4) == 0 ? 1 : 0, *gen_rep()}; o.strs = {*gen_unit()}; return o; }
-        if (k < 11) { o.name = *range(0, 1) ? "append" : "prepend"; o.ints = {*range(0, 2)}; return o; }
+        if (k < 11) { o.name = *range(0, 1) ? "append" : "prepend"; o.ints = {*range(0, 6) == 6 ? 6 : *range(0, 2)}; return o; }
         if (k < 21) { o.name = *range(0, 1) ? "append_ptr" : "prepend_ptr"; o.ints = {*gen_rep(), *range(0, 14) == 0 ? 1 : 0}; o.strs = {*gen_unit()}; return o; }
         if (k < 29) { o.name = *range(0, 1) ? "append_char" : "prepend_char"; o.ints = {(long)(unsigned char)*rc::gen::elementOf(kAlpha + "\xe9\xff")}; return o; }
         if (k < 41) {
